@@ -41,10 +41,16 @@ impl Module {
         impls: &[grammar::FunctionBlock],
         backends: &[grammar::Backend],
     ) -> anyhow::Result<Self> {
-        let impls = impls
-            .iter()
-            .map(|f| (path.join(f.name.as_str().into()), f.clone()))
-            .collect();
+        let mut impls_map = HashMap::new();
+        for block in impls {
+            let block_path = path.join(block.name.as_str().into());
+            if impls_map.insert(block_path, block.clone()).is_some() {
+                anyhow::bail!(
+                    "multiple impl blocks for `{}` in module `{path}`",
+                    block.name
+                );
+            }
+        }
 
         let mut backends_map: HashMap<String, Vec<Backend>> = HashMap::new();
         for backend in backends {
@@ -63,7 +69,7 @@ impl Module {
             ast,
             definition_paths: HashSet::new(),
             extern_values,
-            impls,
+            impls: impls_map,
             backends: backends_map,
             doc,
         })
